@@ -115,6 +115,10 @@ class Mod:
             if lk == "required":
                 o = -o
             table = {"lt": o < 0, "le": o <= 0, "gt": o > 0, "ge": o >= 0, "eq": o == 0, "ne": o != 0}
+            tys = (n.get("l", {}).get("ty", ""), n.get("r", {}).get("ty", ""))
+            if not all("debversion::Version" in t for t in tys):
+                I.ev("C12/comparison-type", "versions are compared through %s instead of debversion::Version ordering" % (tys,), False, d, n.get("sp", ""))
+                return [(OK, unk("cmp"), st)]
             if m not in table or not (d.startswith("core::cmp::PartialOrd::") or d.startswith("core::cmp::PartialEq::")):
                 I.ev("C12/comparison-op", "version comparison through unexpected operator " + d, False, "", n.get("sp", ""))
                 return [(OK, unk("cmp"), st)]
